@@ -23,6 +23,11 @@ UP_SRCS = ["events/events_network_selectstats.c", "datastruct/timerqueue.c", "ne
            "network/network_connect.c", "netbuf/netbuf_read.c", "netbuf/netbuf_write.c", "http/http.c", "util/sock.c",
            "util/sock_util.c", "util/asprintf.c", "util/humansize.c", "util/monoclock.c", "util/warnp.c",
            "aws/aws_sign.c", "alg/sha256.c", "util/hexify.c", "util/insecure_memzero.c"]
+# black-box fallback of h_allocfail.c: the files it #includes white-box, compiled separately
+EV_BB_SRCS = ["datastruct/elasticarray.c", "datastruct/ptrheap.c", "events/events.c", "events/events_immediate.c",
+              "events/events_timer.c", "events/events_network.c"]
+# black-box fallback of h_af_upper.c: the files it #includes white-box, compiled separately
+UP_BB_SRCS = EV_BB_SRCS + ["network/network_read.c", "network/network_write.c"]
 KCAP = 70          # above this many allocations the k's are sampled (all k <= 24, then every third)
 
 
@@ -293,9 +298,19 @@ def ks_for(n):
     return list(range(1, 25)) + list(range(25, n + 1, 3))
 
 
-def sweep(ctx, exe, bases, tag):
+def sweep(ctx, exe, bases, tag, fresh=False):
     """-> sweep cases (each base without fault, then failat k / failfrom k for the k's of ks_for(N))."""
-    outs, crashes = vlib.run_stream([exe], bases, ctx.tmp, tag + "-count", env=dict(vlib.ASAN_ENV, H_UPPER_TMP=ctx.tmp))
+    env = dict(vlib.ASAN_ENV, H_UPPER_TMP=ctx.tmp)
+    if fresh:
+        # black-box mode of a harness whose library state survives a case: one process per base
+        outs, crashes = {}, {}
+        for i, base in enumerate(bases):
+            o, c = vlib.run_stream([exe], [base], ctx.tmp, "%s-count%d" % (tag, i), env=env)
+            outs[i] = o.get(0, [])
+            if 0 in c:
+                crashes[i] = c[0]
+    else:
+        outs, crashes = vlib.run_stream([exe], bases, ctx.tmp, tag + "-count", env=env)
     cases = []
     stats = {"bases": len(bases), "allocations_in_bases": 0}
     for i, base in enumerate(bases):
@@ -345,12 +360,12 @@ def make_components(ctx):
         rule="containers: base sequences over elastic array / queue / seqptrmap / pool (C12's generators without their own "
              "schedules, 6..90 ops) x {no fault, failat k, failfrom k : k = 1..N allocations of the base}; "
              "non-trivial = a fault is scheduled; distinct by hash of the op list",
-        monitor_args=["dsmon"], ldflags=[WRAP], **common)
+        monitor_args=["dsmon"], ldflags=[WRAP], bb_ok=True, bb_srcs=c12.BB_SRCS, bb_fresh=True, **common)
     ev = vlib.Component(
         "events", "h_allocfail.c", EV_SRCS, ["af"], None, nontrivial=lambda c: c[0].startswith("fail"),
         rule="events: base sequences over ptrheap init/add/getmin/deletemin and events_immediate/timer/network register/cancel, "
              "clock steps and events_run (poll reports nothing ready, harness clock) x {no fault, failat k, failfrom k : every k}",
-        monitor_args=["afmon"], ldflags=[WRAP + ",--wrap=poll"], **common)
+        monitor_args=["afmon"], ldflags=[WRAP + ",--wrap=poll"], bb_ok=True, bb_srcs=EV_BB_SRCS, bb_fresh=True, **common)
     up = vlib.Component(
         "upper", "h_af_upper.c", UP_SRCS, ["upecho"], None, nontrivial=lambda c: c[0].startswith("fail"),
         rule="upper (OBSERVED BY FAULT ENUMERATION, NOT PROVED - the completion paths have no Lean failure model; the start / "
@@ -361,7 +376,7 @@ def make_components(ctx):
              "growing size with the unconsumed bytes checked after a failed wait) "
              "x {no fault, failat k, failfrom k : every k}; judged by the L1 rules of pmodel upmon only",
         monitor_args=["upmon"], ldflags=[WRAP + ",--wrap=poll,--wrap=time"], ignore_l2=True, cpu=[],
-        env={"H_UPPER_TMP": ctx.tmp}, **common)
+        env={"H_UPPER_TMP": ctx.tmp}, bb_ok=True, bb_srcs=UP_BB_SRCS, bb_fresh=True, **common)
     ust = vlib.Component(
         "upstart", "h_af_upper.c", UP_SRCS, ["upmodel"], None, nontrivial=lambda c: c[0].startswith("fail"),
         rule="upstart: start / registration / teardown calls of network_read, network_write, network_accept, "
@@ -369,7 +384,8 @@ def make_components(ctx):
              "(fixed descriptors, harness-side listener) x {no fault, failat k, failfrom k : every k}; lock-step with "
              "Model/AllocFail.lean: live library blocks, request sizes in order (hence the number of consultations), "
              "which descriptors have a reader/writer registered, number of immediate events and timers, pool fill",
-        monitor_args=["upmon"], ldflags=[WRAP + ",--wrap=poll,--wrap=time"], cpu=[], env={"H_UPPER_TMP": ctx.tmp}, **common)
+        monitor_args=["upmon"], ldflags=[WRAP + ",--wrap=poll,--wrap=time"], cpu=[], env={"H_UPPER_TMP": ctx.tmp},
+        bb_ok=True, bb_srcs=UP_BB_SRCS, bb_fresh=True, **common)
     return [(cont, bases_containers), (ev, bases_events), (up, bases_upper), (ust, bases_upstart)]
 
 
@@ -388,12 +404,13 @@ def run_components(ctx, names=None):
         if names is not None and comp.name not in names:
             continue
         ctx.rules.append("%s: %s" % (comp.name, comp.rule))
-        exe, err = vlib.build_harness(ctx, comp.name, comp.harness, comp.srcs, cpu=comp.cpu, extra=comp.extra, ldflags=comp.ldflags)
+        exe, err = vlib.build_component(ctx, comp)      # white-box, or black-box where the component allows it (bb_ok)
         if exe is None:
             vlib.process_failures(ctx, comp, [{"kind": "BUILD", "case": [], "index": -1, "detail": {"stderr": err}, "crash": None}])
             continue
         bases = vlib.load_corpus("C14", comp.name) + bases_fn(ctx.rng.fork(comp.name), ctx.tier)
-        cases, stats = sweep(ctx, exe, bases, comp.name)
+        bases = vlib.bb_filter(ctx, comp, bases)
+        cases, stats = sweep(ctx, exe, bases, comp.name, fresh=getattr(comp, "fresh_process", False))
         ctx.cov["components"].setdefault(comp.name, {}).update(stats)
         comp.gen = (lambda cs: (lambda rng, tier, mult: cs))(cases)
         fails = vlib.run_cases(ctx, comp, exe, cases)
